@@ -177,6 +177,12 @@ pub fn components_text(c: &Case) -> String {
     if c.dup & 8 != 0 && matches!(c.red1_opt, Red::Valid(_)) {
         s.push_str("#META CTE_RED1: 0.111, 0.222, 0.333\n#META CTE_RED1: 0.900, 0.800, 0.700\n");
     }
+    // inner whitespace of the metadata lines (meta_pos / 3: 0 as written, 1 blanks around the colon, 2 tabs)
+    let s = match (c.meta_pos / 3) % 3 {
+        1 => s.lines().map(|l| match l.split_once(':') { Some((k, v)) => format!("{} :{}\n", k, v), None => format!("{}\n", l) }).collect::<String>(),
+        2 => s.lines().map(|l| match l.split_once(':') { Some((k, v)) => format!("{}\t:\t{}\n", k.replacen("#META ", "#META\t", 1), v.trim()), None => format!("{}\n", l) }).collect::<String>(),
+        _ => s,
+    };
     let body = BUILDINGS[c.bidx % BUILDINGS.len()];
     match c.meta_pos % 3 {
         0 => format!("{}{}", s, body),
@@ -425,7 +431,7 @@ impl Prop for C19 {
             ),
             (red_v(), red_v(), red_v(), red_v()),
             (proptest::option::weighted(0.3, 0usize..2), 0usize..3, any::<bool>(), prop::bool::weighted(0.2), prop::bool::weighted(0.15), prop_oneof![3 => Just(0u8), 2 => 0u8..16]),
-            (prop_oneof![3 => Just(0u8), 1 => 0u8..16], prop::bool::weighted(0.35), prop_oneof![3 => Just(0u8), 1 => Just(1u8), 1 => Just(2u8)]),
+            (prop_oneof![3 => Just(0u8), 1 => 0u8..16], prop::bool::weighted(0.35), prop_oneof![6 => Just(0u8), 2 => Just(1u8), 2 => Just(2u8), 1 => Just(3u8), 1 => Just(6u8), 1 => Just(4u8), 1 => Just(8u8)]),
         )
             .prop_map(|((area_opt, area_meta, k_opt, k_meta, loc_opt, loc_meta), (red1_opt, red1_meta, red2_opt, red2_meta), (ffile, bidx, lm, no_strip, legacy_meta_keys, red_form), (dup, rerun, meta_pos))| {
                 // an empty location metadata value cannot be written as `#META key:` + nothing on a legacy key: keep as is
